@@ -222,6 +222,10 @@ class ArgparseRunner:
                     sorted(pathlib.Path(self._args.support_templates).glob("**/*" + TEMPLATE_SUFFIX)),
                     lambda p: str(p.resolve()),
                 )
+                # ... and so are the files those templates include or import
+                support_loader = getattr(self._support_generator, "dsdl_loader", None)
+                if support_loader is not None:
+                    self._stdout_lister(support_loader.get_template_resources(), lambda p: str(p.resolve()))
 
         if self._args.generate_support != "only":
             if self._generator.generate_namespace_types:
